@@ -57,6 +57,10 @@ func genRPC06(t *rapid.T, excl *string) sim.RPC {
 		p.Client.Steps = rapid.SliceOfN(clientStepGen, 0, 6).Draw(t, "csteps")
 		p.Handler.Steps = rapid.SliceOfN(handlerStepGen, 0, 5).Draw(t, "hsteps")
 	}
+	// call metadata: one more packet ahead of the invoke, and one more place for a cancel to land
+	if rapid.IntRange(0, 2).Draw(t, "meta") == 0 {
+		p.Meta = [][2]string{{"k", rapid.StringMatching("[a-z]{0,6}").Draw(t, "mv")}}
+	}
 	// the application's `defer cancel()`: the call's context is cancelled once the call is over
 	switch rapid.IntRange(0, 3).Draw(t, "cancelwhendone") {
 	case 1:
@@ -85,7 +89,7 @@ func genC06(t *rapid.T) c06Case {
 	}
 	switch rapid.IntRange(0, 3).Draw(t, "points") {
 	case 0:
-		c.Cfg.Points = []string{"conn.NewStream.afterNewClientStream", "conn.Invoke.afterNewClientStream"}
+		c.Cfg.Points = []string{"conn.NewStream.afterNewClientStream", "conn.Invoke.afterNewClientStream", "conn.afterMetadata"}
 	case 1:
 		// the goroutine that watches a stream's context is late: the call can be over, and its context
 		// cancelled, before that goroutine looks at either
@@ -101,7 +105,11 @@ func genC06(t *rapid.T) c06Case {
 
 // execPrograms runs the generated client/handler programs of a case under its drawn schedule
 // and leaves the world flushed. It is shared by the C06 and C02 oracles.
+// forcedRPCs lists the calls that execPrograms had to end from outside (see finish).
+var forcedRPCs map[int]bool
+
 func execPrograms(c c06Case) (w *sim.World, forced int, undelivered bool) {
+	forcedRPCs = map[int]bool{}
 	w = sim.NewWorld(c.Cfg, c.RPCs)
 	choices := append([]int(nil), c.Choices...)
 	steps := 0
@@ -115,6 +123,7 @@ func execPrograms(c c06Case) (w *sim.World, forced int, undelivered bool) {
 			// application-level stall (client and handler programs wait for each other): end the RPC
 			// the way an application may, by closing the stream from another goroutine.
 			forced++
+			forcedRPCs[k] = true
 			if st := w.Stream(k); st != nil {
 				w.GoCall(fmt.Sprintf("x%d", k), "forceclose", k, st.Close)
 			} else {
